@@ -46,8 +46,8 @@ PROPS = {
         "assumptions": ["number literals inside parameters are JSON numbers (json.Marshal guarantees it); nesting below encoding/json's limit of 10000"],
     },
     "C03": {
-        "streams": streams(("e2e", 1200, 30000), ("jsonself", 2500, 200000), ("jsonstruct", 4000, 300000)),
-        "rule": "real Connection <-> real Service over filesystem unix socket, abstract unix socket, TCP loopback and a bridge subprocess (cycled); 1-3 calls per connection with generated JSON objects as parameters (integers beyond 2^53, exponents, -0, empty objects, null members, unicode, up to 200 KiB), more-sequences of 0-50 replies, error replies, oneway calls; compared: what the handler reads via GetParameters, every value / continues bit / error the client's receive returns; non-trivial = parameters with nesting >= 2",
+        "streams": streams(("e2e", 1200, 30000), ("jsonself", 2500, 200000), ("jsonstruct", 4000, 300000), ("scale", 12, 48)),
+        "rule": "(scale) one dimension far beyond the replayed cases between real client and real service: frames of 1 MiB .. 16 MiB + 1 in both directions, 70 / 300 connections open at once, 5000 / 20000 calls on one connection, a more call with 20000 / 70000 replies; real Connection <-> real Service over filesystem unix socket, abstract unix socket, TCP loopback and a bridge subprocess (cycled); 1-3 calls per connection with generated JSON objects as parameters (integers beyond 2^53, exponents, -0, empty objects, null members, unicode, up to 200 KiB), more-sequences of 0-50 replies, error replies, oneway calls; compared: what the handler reads via GetParameters, every value / continues bit / error the client's receive returns; non-trivial = parameters with nesting >= 2",
         "trusted_base": [JSON_TB, "the four transports are assumed to be reliable ordered byte pipes (sampled, not proved)"],
         "assumptions": ["values are valid UTF-8 for the exact-equality theorems; invalid UTF-8 is replaced by U+FFFD exactly as encoding/json does (theorem parseDoc_render_sanitize, and compared on the wire)"],
     },
